@@ -313,7 +313,10 @@ pub fn findings_json(f: &Findings) -> Value {
     Value::Object(m)
 }
 
-const NAME_POOL: [&str; 19] = [
+const NAME_POOL: [&str; 29] = [
+    // text that a templating / formatting step would take for a placeholder is part of the name, too
+    "Vault{section}.sol", "{lines}.sol", "{}.sol", "{0}{1}.sol", "%s%d.sol", "${name}$1.sol", "{{file}}:{line}.sol", "{total}{count}.sol",
+    "{title}{pattern}{entries}.sol", "\\n\\t.sol",
     // white space inside a name is part of the name: runs of blanks, a tab, a leading / trailing blank, a no-break space
     "My  Token.sol", "tab\there.sol", " lead.sol", "nb\u{a0}sp.sol", "trail .sol",
     "Token.sol", "a b.sol", "x:y.sol", "- item.sol", "#hash.sol", "`tick`.sol", "Vault.sol:12", "\u{dc}ber\u{20ac}.sol",
